@@ -2,9 +2,11 @@
 // exported stream with exactly its name / description / aggregation / attribute filter (Engine B).
 // Every set of <= 2 views over a selector alphabet {instrument type} x {exact name, pattern, "*", no
 // match} x {unit "", exact} x {meter selectors} x {view specs} is registered on a real MeterProvider;
-// four instruments on two meters (one of them unversioned and schema-less, same name) each make one
-// measurement with two attributes; a pull reader collects. Oracle: the exported streams are exactly
-// {stream shaped by each matching view} U {default stream of every instrument no view matches}.
+// seven instruments (one of every type the ABI v1 API creates, two counters) on two meters (one of them
+// unversioned and schema-less, same name) each make one measurement with two attributes; a pull reader
+// collects. Oracle: the exported streams are exactly {stream shaped by each matching view} U {default
+// stream of every instrument no view matches}. View specs include a histogram aggregation with its own
+// configuration (bucket boundaries, no min/max) and a rename onto another instrument's name.
 #include <algorithm>
 #include <regex>
 
